@@ -29,7 +29,8 @@ CAVals == [ method : {"private_key_jwt", "client_secret_basic", "client_secret_p
             sub    : {"client", "other", "absent"},
             \* child_path / with_query / other_case: URLs that merely start with, extend or re-spell the token URL -- "contains the token URL" is equality of one element
             aud    : {"token_url", "other", "list_with_token_url", "list_without", "absent", "child_path", "with_query", "list_child_path"},
-            exp    : {"future", "past", "absent", "string"},
+            \* *_frac: NumericDate values with a fractional part (RFC 7519 allows them); they expire when their instant has passed like any other
+            exp    : {"future", "past", "absent", "string", "future_frac", "past_frac"},
             jti    : {"fresh", "absent"},
             \* how the assertion is put into the form
             form   : {"normal", "empty_assertion", "unknown_type", "with_other_client_id"} ]
@@ -39,7 +40,7 @@ CAFields == DOMAIN CAGood
 CADev(r) == Cardinality({f \in CAFields : r[f] # CAGood[f]})
 CAAccept(r) ==
   /\ r.method = "private_key_jwt" /\ r.alg = "registered" /\ r.key = "registered" /\ r.kid \in {"right", "absent"}
-  /\ r.iss = "client" /\ r.sub = "client" /\ r.aud \in {"token_url", "list_with_token_url"} /\ r.exp = "future" /\ r.jti = "fresh"
+  /\ r.iss = "client" /\ r.sub = "client" /\ r.aud \in {"token_url", "list_with_token_url"} /\ r.exp \in {"future", "future_frac"} /\ r.jti = "fresh"
   /\ r.form = "normal"
   \* with a stale cached key set an assertion WITHOUT kid is checked against whatever key the stale set offers (the refresh is
   \* triggered by a key that cannot be found, and without kid any key of the right type is "found"): refused, which the
@@ -54,7 +55,7 @@ BGVals == [ key    : {"registered", "other_issuer", "unregistered"},
             kid    : {"right", "absent", "unknown"},
             who    : {"registered", "other_subject", "no_iss", "no_sub"},
             aud    : {"token_url", "other", "list_with_token_url", "absent", "child_path", "with_query", "list_child_path"},
-            exp    : {"future", "past", "beyond_max", "absent"},
+            exp    : {"future", "past", "beyond_max", "absent", "future_frac", "past_frac"},
             nbf    : {"absent", "past", "future"},
             iat    : {"present", "absent"},
             iatopt : BOOLEAN,
@@ -70,7 +71,7 @@ BGDev(r) == Cardinality({f \in BGFields : r[f] # BGGood[f]})
 BGAccept(r) ==
   /\ r.key = "registered" /\ r.kid \in {"right", "absent"} /\ r.who = "registered"
   /\ r.aud \in {"token_url", "list_with_token_url"}
-  /\ r.exp = "future" /\ r.nbf \in {"absent", "past"}
+  /\ r.exp \in {"future", "future_frac"} /\ r.nbf \in {"absent", "past"}
   /\ (r.iat = "present" \/ r.iatopt)
   /\ (r.jti = "fresh" \/ r.jtiopt)
   /\ r.scope \in {"covered", "none"}
